@@ -5,6 +5,7 @@ package internal
 
 import (
 	"bytes"
+	"strings"
 	"encoding/binary"
 	"encoding/json"
 	"errors"
@@ -55,6 +56,7 @@ type c09Reader struct {
 	end      string
 	release  chan struct{}
 	scriptOK bool
+	pipeSem  bool // io.Pipe semantics: a Read with an empty buffer waits for the next write / close
 	maxChunk int // used when the script is exhausted / not applicable (0 = all)
 	cyc      []int
 	cyci     int
@@ -63,7 +65,15 @@ type c09Reader struct {
 
 func (r *c09Reader) Read(p []byte) (int, error) {
 	if len(p) == 0 {
-		return 0, nil
+		if !r.pipeSem || r.pos < len(r.data) {
+			return 0, nil
+		}
+		// nothing more will be written: an io.Pipe reader waits for the close (EOF) or for ever
+		if r.end == "eof" {
+			return 0, io.EOF
+		}
+		<-r.release
+		return 0, errors.New("verif: released stalled reader")
 	}
 	r.reads++
 	if r.ci < len(r.chunks) {
@@ -212,7 +222,16 @@ func c09Execute(variant string, s *c09Scn, stream []byte, bodies [][]byte, useSc
 	if useScript {
 		rd.chunks = c09Chunks(s)
 	}
-	defer close(rd.release)
+	pipe := strings.HasSuffix(variant, "pipe")
+	if pipe {
+		// the runner reads its peers through io.Pipe: a Read with an empty buffer does not return
+		// until the other side writes or closes
+		rd.pipeSem = true
+		variant = strings.TrimSuffix(variant, "pipe")
+	}
+	var relOnce sync.Once
+	release := func() { relOnce.Do(func() { close(rd.release) }) }
+	defer release()
 	timeout := 30 * time.Second
 	if s.End == "stall" {
 		timeout = c09StallTimeout
@@ -226,8 +245,34 @@ func c09Execute(variant string, s *c09Scn, stream []byte, bodies [][]byte, useSc
 		var data []byte
 		var err error
 		t0 := time.Now()
+		if pipe {
+			// watchdog: the call must return within the configured period (plus slack)
+			type res struct {
+				data []byte
+				err  error
+			}
+			ch := make(chan res, 1)
+			go func() {
+				r := timeoutDelimitedReader{in: rd, source: "src", timeout: timeout, maxSize: s.Limit, readDone: make(chan struct{})}
+				d, e := r.readDelimitedMessageRaw()
+				ch <- res{d, e}
+			}()
+			select {
+			case r := <-ch:
+				data, err = r.data, r.err
+			case <-time.After(timeout + 5*time.Second):
+				run.Obs = append(run.Obs, c09Res{K: "Hang", Text: "call did not return within timeout+5s"})
+				release()
+				<-ch
+				run.ScriptOK = true
+				return run
+			}
+		}
 		switch variant {
 		case "raw":
+			if pipe {
+				break
+			}
 			r := timeoutDelimitedReader{in: rd, source: "src", timeout: timeout, maxSize: s.Limit, readDone: make(chan struct{})}
 			data, err = r.readDelimitedMessageRaw()
 		case "msg":
@@ -458,6 +503,9 @@ func TestVerifC09Replay(t *testing.T) {
 			}
 		}
 		check("raw", s.Exp)
+		if s.End == "stall" {
+			check("rawpipe", s.Exp)
+		}
 		if c09ProtoOK(s.Exp) {
 			check("msg", s.Exp)
 		}
